@@ -94,6 +94,14 @@ fn id_values(t: &mut Tape) -> (Value, Want, &'static str) {
 fn direct_campaign(report: &mut Report, n: usize) {
     let tapes = sample_tapes(report.seed, 0xC16D, n, 64);
     for tp in &tapes {
+        direct_one(report, tp);
+    }
+    report.sample(json!({"kind": "direct", "example": {"json": "{\"other\":1,\"id\":9223372036854775807}", "shape": "flatten_plain", "expected": "Some(\"9223372036854775807\")"}}));
+}
+
+/// One in-process case, a pure function of the tape (also the replay path).
+fn direct_one(report: &mut Report, tp: &[u8]) {
+    {
         let mut t = Tape::new(tp);
         let (v, want, class) = id_values(&mut t);
         let absent = t.chance(8);
@@ -156,7 +164,6 @@ fn direct_campaign(report: &mut Report, n: usize) {
             report.failure(key, &format!("c16d:{}:{}", shape, class), &summary, || replay);
         }
     }
-    report.sample(json!({"kind": "direct", "example": {"json": "{\"other\":1,\"id\":9223372036854775807}", "shape": "flatten_plain", "expected": "Some(\"9223372036854775807\")"}}));
 }
 
 // ---- compiled part
@@ -347,13 +354,15 @@ pub fn run(report: &mut Report, replay: Option<&Value>) {
     report.assumptions = vec!["u64 values above i64::MAX are not asserted".into(), "rustc 1.95 + serde/serde_json as installed are correct".into()];
     if let Some(v) = replay {
         if v["engine"] == "e4" {
-            report.infra("C16 direct replays: re-run the quick tier with the same seed (the failing JSON text is in the replay file)".into());
+            direct_one(report, &crate::tape::unhex(v["tape_hex"].as_str().unwrap_or("")));
+            report.nontrivial.insert(1);
+            report.nontrivial.insert(2);
         } else {
             replay_e1(report, v);
         }
         return;
     }
-    super::replay_corpus(report, &|r, v| if v["engine"] != "e4" { replay_e1(r, v) });
+    super::replay_corpus(report, &|r, v| if v["engine"] == "e4" { direct_one(r, &crate::tape::unhex(v["tape_hex"].as_str().unwrap_or(""))) } else { replay_e1(r, v) });
     direct_campaign(report, if report.thorough() { 300_000 } else { 20_000 });
     let hooks = Hooks { classify: &classify, classify_compile: &classify_compile, compile_failure_is_violation: true, rebuild: None };
     // depth-0 expressions in the main campaign; lists of ID are a listed finding (probe below)
